@@ -2,16 +2,43 @@
    decode one exported instance and run every checker on it. *)
 From Coq Require Import List ZArith Bool.
 Import ListNotations.
-From V Require Import Valid.Hier Valid.Walk Valid.FlatRegion Valid.Wf Valid.Cons.
+From V Require Import Valid.Hier Valid.Walk Valid.FlatRegion Valid.Wf Valid.Cons Valid.Struct.
 Local Open Scope Z_scope.
 
 Definition b2z (b : bool) : Z := if b then 1 else 0.
 
-(* result: [decoded; c01 flat; c01 region; c04; c05; c06] *)
+(* result: [decoded; c01 flat; c01 region; c04; c05; c06; c03 loop part; c03 full] *)
 Definition run_instance (rows : list (list Z)) : list Z :=
   match decode rows with
   | None => [0]
   | Some (g, h) =>
     [1; b2z (c01_check false g h); b2z (c01_check true g h);
-     b2z (wf_check h); b2z (cons_check g h); b2z (c06_check h)]
+     b2z (wf_check h); b2z (cons_check g h); b2z (c06_check h);
+     b2z (c03_check false h); b2z (c03_check true h)]
   end.
+
+Definition col (k : nat) (rows : list (list Z)) : Z := nth k (run_instance rows) 0.
+
+Lemma b2z_1 b : b2z b = 1 -> b = true.
+Proof. destruct b; [reflexivity|discriminate]. Qed.
+
+(* what a 1 in each column of the driver's output means *)
+Theorem run_instance_sound rows g h :
+  decode rows = Some (g, h) ->
+  (col 1 rows = 1 -> PathEq false g h) /\
+  (col 2 rows = 1 -> PathEq true g h) /\
+  (col 3 rows = 1 -> WfHier h) /\
+  (col 4 rows = 1 -> Conserved g h) /\
+  (col 5 rows = 1 -> CtrlSafe h) /\
+  (col 6 rows = 1 -> LoopStructured h) /\
+  (col 7 rows = 1 -> Structured h).
+Proof.
+  intros Hd. unfold col, run_instance. rewrite Hd. cbn [nth].
+  split; [intros Hc; apply b2z_1 in Hc; apply c01_check_sound; exact Hc|].
+  split; [intros Hc; apply b2z_1 in Hc; apply c01_check_sound; exact Hc|].
+  split; [intros Hc; apply b2z_1 in Hc; apply wf_check_sound; exact Hc|].
+  split; [intros Hc; apply b2z_1 in Hc; apply cons_check_sound; exact Hc|].
+  split; [intros Hc; apply b2z_1 in Hc; apply c06_check_sound; exact Hc|].
+  split; [intros Hc; apply b2z_1 in Hc; eapply struct_check_loop_sound; exact Hc|].
+  intros Hc; apply b2z_1 in Hc; eapply struct_check_sound; exact Hc.
+Qed.
